@@ -20,6 +20,12 @@ type Violation struct {
 	Trace    []string `json:"trace"` // last calls made at the API boundary, oldest first
 	Count    int      `json:"count"` // how many cases of this run produced the same signature
 	Stack    string   `json:"stack,omitempty"`
+	// Par: observed in the concurrent-private-instances phase (race build,
+	// ParG goroutines in each of ParW processes; ParK = the process, -1 = any)
+	Par  bool `json:"concurrent_instances,omitempty"`
+	ParK int  `json:"concurrent_instances_process,omitempty"`
+	ParW int  `json:"concurrent_instances_processes,omitempty"`
+	ParG int  `json:"concurrent_instances_goroutines,omitempty"`
 }
 
 type opRec struct {
@@ -81,6 +87,10 @@ type Ctx struct {
 	nontriv  bool
 	Verbose  io.Writer
 	Viol     *Violation
+	// Concurrent: the case runs in the concurrent-private-instances phase
+	// (race build, several cases at once); case functions leave their
+	// longest-running modes to the sequential run.
+	Concurrent bool
 	// Only, if set, restricts which violation kinds this case reports: a
 	// workload written for another property may be run under this property's
 	// monitors only (C17 deep cases); a divergence of the other property's
